@@ -1,0 +1,17 @@
+//go:build verif
+
+package network
+
+import (
+	"github.com/nuts-foundation/go-did/did"
+	"github.com/nuts-foundation/nuts-node/crypto"
+	"github.com/nuts-foundation/nuts-node/network/dag"
+	"github.com/nuts-foundation/nuts-node/vdr/resolver"
+)
+
+// VerifNewTransactionCreator returns a Network that holds exactly what CreateTransaction uses: the DAG state the new
+// transaction is added to, the key store that signs it, the resolver of the participants' keyAgreement keys and the node
+// DID (production: NewNetworkInstance + Configure wire these from the node's engines). Nothing else of the engine works.
+func VerifNewTransactionCreator(state dag.State, keyStore crypto.KeyStore, keyResolver resolver.KeyResolver, nodeDID did.DID) *Network {
+	return &Network{state: state, keyStore: keyStore, keyResolver: keyResolver, nodeDID: nodeDID}
+}
